@@ -220,7 +220,10 @@ class Codec(object):
                      if (c.get("type_name") or c["name"]) == wk]
             if not names:
                 raise lex.LexError("wrapper key %r names no class" % wk)
-            cname = names[0]
+            # type names need not be unique across namespaces: the declared class (or one
+            # derived from it) decides among equally named candidates
+            rel = [n for n in names if n == cname or self._derives(n, cname)]
+            cname = (rel or names)[0]
         o = RefObj(cname)
         x = {self._s(k): v for k, v in x.items()}
         known = set()
@@ -231,6 +234,15 @@ class Codec(object):
         if extra:
             raise lex.LexError("unknown members %r in %s" % (sorted(extra), cname))
         return o
+
+    def _derives(self, sub, base):
+        cs = {c["name"]: c for c in self.U["classes"]}
+        e = cs[sub]["extends"]
+        while e is not None:
+            if e == base:
+                return True
+            e = cs[e]["extends"]
+        return False
 
     def response(self, m, doc, rpc=False):
         """-> list of decoded return values"""
